@@ -39,14 +39,20 @@ def drivers(d):
                         "k": {idk: "#k", "$ref": "#/definitions/N"},
                         "t": {idk: "sub/", "items": {"$ref": "../other.json#/e"}},
                         # an id that cannot be parsed, below a well-formed one: reaching it is a RefResolutionError
-                        "bad": {idk: H + "ok/", "properties": {"z": {idk: "http://[", "type": "integer"}}}}}
+                        "bad": {idk: H + "ok/", "properties": {"z": {idk: "http://[", "type": "integer"}}},
+                        # dependencies in the short forms of the draft, here and in a store document
+                        "dep": {"dependencies": {"a": "b" if d == 3 else ["b"], "c": {"required": ["e"]} if d >= 4
+                                                 else {"properties": {"e": {"required": True}}}}},
+                        "g": {"$ref": "other.json#/f"}}}
     out.append({
         "name": "A", "schema": S,
-        "store": {H + "other.json": {"d": {"type": "integer"}, "e": {"items": {"$ref": "#/d"}}}},
+        "store": {H + "other.json": {"d": {"type": "integer"}, "e": {"items": {"$ref": "#/d"}},
+                                     "f": {"dependencies": {"a": "b" if d == 3 else ["b"]}, "type": ["object", "null"]}}},
         "remote": {H + "remote.json": {"d": {"type": "string"}}},
         "instances": [{"p": 1, "q": "s"}, {"p": "x", "q": 1},
                       {"n": 3, "q": 1, "t": [["a", 1], [2, "b"]], "p": "y"}, {"r": 1, "q": 2},
-                      {"q": 1, "bad": {"z": "s"}, "p": "x"}, {"k": 1, "q": "s", "p": "x"},
+                      {"q": 1, "bad": {"z": "s"}, "p": "x", "dep": {"a": 1, "c": 2}, "g": {"a": 1}},
+                      {"k": 1, "q": "s", "p": "x", "g": {"a": 1, "b": 2}, "dep": {"c": 1}},
                       ("defaulting", {"q": 1, "p": "x"})],
         "refs": ["#/definitions/N", "remote.json#/d", "other.json#/e"], "scope": "sub/",
     })
@@ -80,8 +86,10 @@ def drivers(d):
                         "w": {"items": {"$ref": "s.json#/t"}}}}
     out.append({
         "name": "C", "schema": S, "store": {},
-        "remote": {H + "b/s.json": {"t": {"type": "integer"}}, H + "a/s.json": {"t": {"type": "string"}}},
-        "instances": [{"x": {"y": 1}, "z": "s"}, {"x": {"y": "no"}, "z": 1}, {"w": [1, "s", 2], "x": {"y": []}},
+        # what a document calls itself is not where it was retrieved from: b/s.json claims to be a/s.json
+        "remote": {H + "b/s.json": {idk: H + "a/s.json", "t": {"type": "integer"}},
+                   H + "a/s.json": {"t": {"type": "string"}}},
+        "instances": [{"x": {"y": 1}}, {"z": 1}, {"w": [1, "s", 2], "x": {"y": "no"}, "z": "s"},
                       ("defaulting", {"z": 5})],
         "refs": ["s.json#/t", H + "b/s.json#/t"], "scope": H + "b/",
     })
@@ -263,6 +271,93 @@ class Model(object):
         return None
 
 
+# ---- purity sweep over the whole grammar (E1 inside C07) -------------------------
+PURE_URL = H + "pure/doc.json"
+PURE_OPS = ("is_valid", "exhaust", "validate", "take1")
+
+
+def snapshot(x):
+    """Text that distinguishes 1 / 1.0 / True, key order and container types."""
+    if isinstance(x, dict):
+        return "{%s}" % ",".join("%r:%s" % (k, snapshot(v)) for k, v in x.items())
+    if isinstance(x, (list, tuple)):
+        return "%s[%s]" % (type(x).__name__, ",".join(snapshot(v) for v in x))
+    return "%s:%r" % (type(x).__name__, x)
+
+
+def pure_call(v, op, x):
+    try:
+        if op == "is_valid":
+            v.is_valid(x)
+        elif op == "exhaust":
+            list(v.iter_errors(x))
+        elif op == "validate":
+            v.validate(x)
+        else:
+            it = v.iter_errors(x)
+            next(it, None)
+            del it
+    except (exceptions.ValidationError, exceptions.RefResolutionError, exceptions.UnknownType):
+        pass
+
+
+def pure_problem(d, S, x, via_store):
+    """None or (what, detail): the schema / store document / instance after every entry point vs. before."""
+    cls = _e1.CLS[d]
+    for op in PURE_OPS:
+        S1 = copy.deepcopy(S)
+        x1 = copy.deepcopy(x)
+        if via_store:
+            root = {"$ref": PURE_URL + "#/s"}
+            doc = {"s": S1}
+            r = RefResolver.from_schema(root, id_of=cls.ID_OF, store={PURE_URL: doc})
+            v = cls(root, resolver=r)
+        else:
+            v = cls(S1)
+        s0, x0 = snapshot(S1), snapshot(x1)
+        try:
+            pure_call(v, op, x1)
+        except Exception:
+            continue        # totality is C03's business
+        if snapshot(S1) != s0:
+            return ("store-document-modified" if via_store else "schema-modified", {"op": op, "after": S1})
+        if snapshot(x1) != x0:
+            return ("instance-modified", {"op": op, "after": x1})
+        if via_store and (r.resolution_scope != "" or len(getattr(r, "_scopes_stack", [""])) != 1):
+            return ("scope-not-restored", {"op": op, "scope": r.resolution_scope})
+    return None
+
+
+def run_pure(unit, ctx):
+    from mc.enum import jsonvals
+    d, _, kind, shard, n = unit
+    U = jsonvals.universe_small()
+    ev = nt = 0
+    viol, outcomes, samples = [], {}, []
+    lst = _e1.get_list(kind, d, ctx.tier)
+    for i in range(shard, len(lst), n):
+        S = lst[i]
+        if kind != "singles" and not _e1.accepted(d, S):
+            continue
+        for x in U:
+            if not _e1.nontrivial(S, x):
+                continue
+            for via_store in (False, True):
+                ev += 1
+                nt += 1
+                p = pure_problem(d, S, x, via_store)
+                key = "pure" if p is None else p[0]
+                outcomes[key] = outcomes.get(key, 0) + 1
+                if p is not None:
+                    viol.append({"signature": "C07|purity|%s|%s" % (p[0], _e1.kwsig(S)), "size": len(str(S)) + len(str(x)),
+                                 "case": {"kind": "purity", "draft": d, "schema": S, "instance": x, "via_store": via_store},
+                                 "detail": p[1]})
+        if not samples and i % 37 == 5:
+            samples.append({"kind": "purity", "draft": d, "schema": S, "instance": U[i % len(U)]})
+    return {"evaluations": ev, "nontrivial": nt, "violations": viol, "samples": samples, "outcomes": outcomes,
+            "counters": {"purity_cases": ev}}
+
+
 def depths(ctx):
     return (3, 5, 2) if ctx.tier == "quick" else (4, 7, 2)
 
@@ -287,10 +382,19 @@ def plan(ctx):
             sizes["ops_%s_d%d" % (drv["name"], d)] = len(m.all_ops)
             for i in range(len(m.all_ops)):
                 units.append((d, drv["name"], i))
+    for d in _e1.DRAFTS:
+        for kind in (("singles", "groups", "nested") if ctx.thorough else ("singles", "groups")):
+            lst = _e1.get_list(kind, d, ctx.tier)
+            sizes["purity_%s_d%d" % (kind, d)] = len(lst)
+            n = max(1, min(8, len(lst) // 100))
+            units += [(d, "pure", kind, i, n) for i in range(n)]
     D0, D1, dev = depths(ctx)
     return {
         "units": units,
-        "rule": ("3 driver schemas per draft (local / store / handler-served / relative-under-nested-id / recursive / "
+        "rule": ("PURITY SWEEP: every single-keyword schema and sibling group of G(draft) x 29 instances x 4 entry "
+                 "points, the schema given directly and as a store document reached through $ref: schema, store "
+                 "document and instance are compared (types, key order) before and after.  HISTORIES: "
+                 "3 driver schemas per draft (local / store / handler-served / relative-under-nested-id / recursive / "
                  "unresolvable references, references under not, contains, oneOf, anyOf, if and draft-3 type/disallow) "
                  "x all operation histories on one validator: un-merged to depth D0, then one representative per "
                  "canonical state (scope stack, handler mode, fetched set, store keys, held exceptions) to depth D1; "
@@ -306,6 +410,8 @@ def plan(ctx):
 
 
 def run_unit(unit, ctx):
+    if unit[1] == "pure":
+        return run_pure(unit, ctx)
     d, name, first = unit
     m = get_model(d, name)
     D0, D1, dev = depths(ctx)
@@ -334,6 +440,9 @@ def finish(merged, plan, ctx):
 
 
 def replay(case, ctx):
+    if case.get("kind") == "purity":
+        p = pure_problem(case["draft"], case["schema"], case["instance"], case["via_store"])
+        return {"reproduced": p is not None, "problem": p}
     m = get_model(case["draft"], case["driver"])
     hist = tuple(tuple(op) for op in case["history"])
     w = history.rebuild(m, hist[:-1])
